@@ -393,6 +393,55 @@ class NCCHReader(TypeReaderCryptoBase):
         info_final = " ".join(x + ": " + str(y) for x, y in info)
         return f'<{type(self).__name__} {info_final}>'
 
+    def _setup_exefs(self):
+        """
+        Set up the decrypted view of the whole ExeFS (and, when two keyslots are in use, the ranges each one covers).
+        Done by :meth:`load_sections`, or on first use when the reader was created with ``load_sections=False``.
+        """
+        if self._exefs_special_handling:
+            # Get the sections that are encrypted with the extra keyslot. This includes any part that is not the
+            # header, "icon", "banner". This is how the 3DS treats it; any other file is encrypted with the extra
+            # keyslot. In practice this is only ".code", however if another file is forced in like "logo", it is
+            # encrypted with the extra keyslot. So because this has a chance of happening, no matter how unlikely,
+            # I have to do this properly. Assumptions with Nintendo formats have bitten me in the ass before.
+
+            # Load the ExeFS to get the file offsets and sizes. It's re-created after once a new merged file is made
+            # with the decrypted sections.
+            exefs_tmp_fp = self._open_section_generic(NCCHSection.ExeFS)
+            exefs_tmp = ExeFSReader(exefs_tmp_fp, closefd=False, _load_icon=False)
+
+            # Every file that is not "icon" or "banner" uses the extra keyslot; the header, those two files and
+            # any space between files use the main keyslot. The ranges are relative to the start of the ExeFS
+            # (so each file starts 0x200 after its offset) and are stored as (start, end, uses_extra_keyslot).
+            extra_ranges = sorted((info.offset + 0x200, info.offset + info.size + 0x200)
+                                  for name, info in exefs_tmp.entries.items()
+                                  if name not in EXEFS_NORMAL_CRYPTO_FILES and info.size)
+
+            # In open_raw_section this is used to create multiple SubsectionIO objects based on one of two
+            # CTRFileIO objects, one for the main keyslot and one for extra. Then all of them are merged into one
+            # large file with SplitFileMerger to provide easy access to the full decrypted ExeFS.
+            self._exefs_crypto_ranges = []
+            previous_offset = 0
+            for range_start, range_end in extra_ranges:
+                range_start = max(range_start, previous_offset)
+                if range_start > previous_offset:
+                    self._exefs_crypto_ranges.append((previous_offset, range_start, False))
+                if range_end > range_start:
+                    self._exefs_crypto_ranges.append((range_start, range_end, True))
+                    previous_offset = range_end
+                else:
+                    previous_offset = range_start
+            exefs_size = self.sections[NCCHSection.ExeFS].size
+            if exefs_size > previous_offset:
+                self._exefs_crypto_ranges.append((previous_offset, exefs_size, False))
+
+        # This will set up either the special ExeFS encryption from above, or a straightforward decryption
+        # passthrough if not.
+        self._exefs_fp = self.open_raw_section(NCCHSection.ExeFS)
+        # get_data reads the decrypted ExeFS through a window of its own, for the same reason as _raw_fp: the files
+        #   opened from self.exefs are windows on _exefs_fp too and hold the lock those windows share
+        self._exefs_raw_fp = SubsectionIO(self._exefs_fp, 0, self.sections[NCCHSection.ExeFS].size)
+
     def load_sections(self):
         """Load the sections of the NCCH (Extended Header, ExeFS, and RomFS)."""
 
@@ -402,49 +451,7 @@ class NCCHReader(TypeReaderCryptoBase):
         except KeyError:
             pass  # no ExeFS
         else:
-            if self._exefs_special_handling:
-                # Get the sections that are encrypted with the extra keyslot. This includes any part that is not the
-                # header, "icon", "banner". This is how the 3DS treats it; any other file is encrypted with the extra
-                # keyslot. In practice this is only ".code", however if another file is forced in like "logo", it is
-                # encrypted with the extra keyslot. So because this has a chance of happening, no matter how unlikely,
-                # I have to do this properly. Assumptions with Nintendo formats have bitten me in the ass before.
-
-                # Load the ExeFS to get the file offsets and sizes. It's re-created after once a new merged file is made
-                # with the decrypted sections.
-                exefs_tmp_fp = self._open_section_generic(NCCHSection.ExeFS)
-                exefs_tmp = ExeFSReader(exefs_tmp_fp, closefd=False, _load_icon=False)
-
-                # Every file that is not "icon" or "banner" uses the extra keyslot; the header, those two files and
-                # any space between files use the main keyslot. The ranges are relative to the start of the ExeFS
-                # (so each file starts 0x200 after its offset) and are stored as (start, end, uses_extra_keyslot).
-                extra_ranges = sorted((info.offset + 0x200, info.offset + info.size + 0x200)
-                                      for name, info in exefs_tmp.entries.items()
-                                      if name not in EXEFS_NORMAL_CRYPTO_FILES and info.size)
-
-                # In open_raw_section this is used to create multiple SubsectionIO objects based on one of two
-                # CTRFileIO objects, one for the main keyslot and one for extra. Then all of them are merged into one
-                # large file with SplitFileMerger to provide easy access to the full decrypted ExeFS.
-                self._exefs_crypto_ranges = []
-                previous_offset = 0
-                for range_start, range_end in extra_ranges:
-                    range_start = max(range_start, previous_offset)
-                    if range_start > previous_offset:
-                        self._exefs_crypto_ranges.append((previous_offset, range_start, False))
-                    if range_end > range_start:
-                        self._exefs_crypto_ranges.append((range_start, range_end, True))
-                        previous_offset = range_end
-                    else:
-                        previous_offset = range_start
-                exefs_size = self.sections[NCCHSection.ExeFS].size
-                if exefs_size > previous_offset:
-                    self._exefs_crypto_ranges.append((previous_offset, exefs_size, False))
-
-            # This will set up either the special ExeFS encryption from above, or a straightforward decryption
-            # passthrough if not.
-            self._exefs_fp = self.open_raw_section(NCCHSection.ExeFS)
-            # get_data reads the decrypted ExeFS through a window of its own, for the same reason as _raw_fp: the files
-            #   opened from self.exefs are windows on _exefs_fp too and hold the lock those windows share
-            self._exefs_raw_fp = SubsectionIO(self._exefs_fp, 0, self.sections[NCCHSection.ExeFS].size)
+            self._setup_exefs()
             self.exefs = ExeFSReader(self._exefs_fp, closefd=False)
 
         # try to load RomFS
@@ -468,6 +475,9 @@ class NCCHReader(TypeReaderCryptoBase):
         if not self.flags.no_crypto:
             # check if the region is ExeFS and needs special handling, or is fulldec, and use a specific file class
             if section == NCCHSection.ExeFS and self._exefs_special_handling:
+                if not hasattr(self, '_exefs_crypto_ranges'):
+                    # created with load_sections=False: the ranges have not been worked out yet
+                    self._setup_exefs()
                 region = self.sections[section]
                 files = []
                 main_io = self._open_section_generic(section, encryption=False)
@@ -666,6 +676,9 @@ class NCCHReader(TypeReaderCryptoBase):
             # if the region is ExeFS and extra crypto is being used, special handling is required
             #   because different parts use different encryption methods
             if region.section == NCCHSection.ExeFS:
+                if not hasattr(self, '_exefs_raw_fp'):
+                    # created with load_sections=False: the decrypted ExeFS view has not been set up yet
+                    self._setup_exefs()
                 self._exefs_raw_fp.seek(offset)
                 return self._exefs_raw_fp.read(size)
             else:
